@@ -21,11 +21,11 @@ struct Cfg { universe: i64, len: usize, cap: usize, profile: u32, life: i64, var
 
 fn cfg_of(h: u64) -> Cfg {
     Cfg {
-        universe: [12i64, 24, 64, 200, 1000][(h % 5) as usize],
+        universe: [12i64, 24, 64, 200, 1000, 4000][(h % 6) as usize],
         len: [300usize, 1500, 4000][(h % 3) as usize],
         cap: [0usize, 8, 9, 64, 1000][((h / 5) % 5) as usize],
         profile: ((h / 3) % 3) as u32,
-        life: [4i64, 12, 40, 100][((h / 7) % 4) as usize],
+        life: [4i64, 12, 40, 100, 1000][((h / 7) % 5) as usize],
         variant: ((h / 2) % 2) as u32,
         inject: h % 4 == 1,
     }
@@ -127,9 +127,14 @@ fn one_history(coll: &str, cfg: &Cfg, rng: &mut Rng, ops_done: &AtomicU64, rec: 
                 let e = t + rng.range(0, cfg.life);
                 run!(Op::new("insert", &[kk, e, val, t]), None, None);
                 m.insert(kk, (e, val));
-            } else if roll < p_get { let kq = rng.range(-1, u); run!(Op::new("get", &[t, kq]), None, Some(s(live(&m, kq, t)))); }
-            else if roll < p_fle { let kq = rng.range(-1, u); run!(Op::new("fle", &[t, kq]), None, Some(s(pred(&m, kq, false, t).map(|x| x.1)))); }
-            else if roll < p_fl { let kq = rng.range(-1, u); run!(Op::new("fl", &[t, kq]), None, Some(s(pred(&m, kq, true, t).map(|x| x.1)))); }
+            } else if roll < p_fl {
+                // half of the probes are stored keys (equality with a stored key is where the three queries differ)
+                let mut kq = rng.range(-1, u);
+                if rng.chance(1, 2) { if let Some((kk, _)) = m.range(kq..).next() { kq = *kk; } }
+                if roll < p_get { run!(Op::new("get", &[t, kq]), None, Some(s(live(&m, kq, t)))); }
+                else if roll < p_fle { run!(Op::new("fle", &[t, kq]), None, Some(s(pred(&m, kq, false, t).map(|x| x.1)))); }
+                else { run!(Op::new("fl", &[t, kq]), None, Some(s(pred(&m, kq, true, t).map(|x| x.1)))); }
+            }
             else if roll < 96 {
                 if coll == "klist" { continue; }
                 let exp: Vec<String> = m.iter().filter(|(_, x)| x.0 > t).map(|(_, x)| x.1.to_string()).collect();
@@ -151,10 +156,15 @@ fn one_history(coll: &str, cfg: &Cfg, rng: &mut Rng, ops_done: &AtomicU64, rec: 
                     if let Some(v) = m.get(&hk).map(|x| x.1) { run!(Op::new("validx", &[hh]), Some(hk), Some(v.to_string())); }
                 }
             } else if roll < p_del { run!(Op::new("delete", &[k]), None, None); m.remove(&k); held.clear(); }
-            else if roll < p_get { let kq = rng.range(-1, u); run!(Op::new("get", &[kq]), None, Some(s(live(&m, kq, 0)))); }
+            else if roll < p_get {
+                let mut kq = rng.range(-1, u);
+                if rng.chance(1, 2) { if let Some((kk, _)) = m.range(kq..).next() { kq = *kk; } }
+                run!(Op::new("get", &[kq]), None, Some(s(live(&m, kq, 0))));
+            }
             else {
                 // predecessor handle, then read / write / delete / neighbour steps through it
-                let kq = rng.range(-1, u);
+                let mut kq = rng.range(-1, u);
+                if rng.chance(1, 2) { if let Some((kk, _)) = m.range(kq..).next() { kq = *kk; } }
                 // (the comparator form takes 2*key)
                 let use_by = rng.chance(1, 2);
                 let h = run!(if use_by { Op::new("filby", &[2 * kq]) } else { Op::new("fil", &[kq]) }, None, None);
